@@ -38,6 +38,12 @@ type frameFlags struct {
 	RTR bool
 }
 
+// frameHeaderLen is the length of the fixed part of a frame.
+const frameHeaderLen = 12
+
+// initiateFrameHeaderLen is the length of the fixed part of an initiate frame.
+const initiateFrameHeaderLen = 10
+
 // The bit index for each of these flags.
 const (
 	REQIdx  = 0
@@ -117,12 +123,18 @@ func (p *frame) toBytes() []byte {
 }
 
 func fromBytes(b []byte) (*frame, error) {
+	if len(b) < frameHeaderLen {
+		return nil, errMalformedFrame
+	}
 	dataLength := binary.BigEndian.Uint16(b[2:4])
+	if int(dataLength) > len(b)-frameHeaderLen {
+		return nil, errMalformedFrame
+	}
 	return &frame{
 		tubeID:     b[0],
 		flags:      metaToFlags(b[1]),
 		dataLength: dataLength,
-		data:       append([]byte(nil), b[12:12+dataLength]...),
+		data:       append([]byte(nil), b[frameHeaderLen:frameHeaderLen+int(dataLength)]...),
 		ackNo:      binary.BigEndian.Uint32(b[4:8]),
 		frameNo:    binary.BigEndian.Uint32(b[8:12]),
 	}, nil
